@@ -171,7 +171,118 @@ def _reachable_text(project: Project, fi) -> str:
     return "\n".join(out)
 
 
+def check_lcc_semantic(project: Project, rep, fi) -> str:
+    """GH-LCC decided on the evaluated function: `make_distance_matrix_from_adjacency_matrix` is followed with the graph
+    library observed (shortest_path gives an opaque V×V table that may hold infinities, connected_components an opaque label
+    per vertex, the integer cast is the identity).  What comes back when some distance is infinite must be the table
+    restricted to ONE selection of vertices on both axes — a selection that is a function of the component labels — with
+    entry (i, j) still the distance of vertices i and j; a warning must have been issued on that path.
+    ok / refuted / unmodelled."""
+    from ..core.absint import Config, Interp
+    from ..core import sym
+    from ..core.values import Alt, Arr, fresh, rows
+    cast = f"{MOD}.cast_distance_matrix_to_optimal_int_type"
+
+    def ident(I_, bound, n_):
+        return list(bound.values())[0]
+    I = Interp(project, Config(nonempty={("rows", "V")}, flags={"stub_func": {cast: ident} if cast in project.functions else {}}))
+    ag = Arr([(rows("V"), fresh()), (rows("V"), fresh())], sym.Opq("adjacency", (), None), "nd")
+    try:
+        r = I.run(fi.qualname, {fi.params[0]: ag})
+    except AnalysisError as ex:
+        rep.unmodelled("GH-LCC", fi, fi.node, f"{ex}"[:160])
+        return "unmodelled"
+    if I.unmodelled or I.lossy:
+        why = I.lossy[0]["why"] if I.lossy else "unmodelled value: " + I.unmodelled[0]["tag"]
+        rep.unmodelled("GH-LCC", fi, fi.node, f"the function could not be followed exactly ({why})")
+        return "unmodelled"
+    alts = list(r.vals) if isinstance(r, Alt) else [r]
+    restricted = plain = 0
+    largest_ok = None
+    c0 = sym.TRUE
+    for a in alts:
+        if not (isinstance(a, Arr) and a.ndim == 2):
+            rep.unmodelled("GH-LCC", fi, fi.node, f"a result that is not a 2-d table: {a!r}"[:160])
+            return "unmodelled"
+        (s0, i0), (s1, i1) = a.axes
+        k0, k1 = s0.key, s1.key
+        if k0 == ("rows", "V") and k1 == ("rows", "V"):
+            plain += 1
+            continue
+        sub0 = isinstance(k0, tuple) and k0[0] == "sub" and k0[1] == ("rows", "V")
+        sub1 = isinstance(k1, tuple) and k1[0] == "sub" and k1[1] == ("rows", "V")
+        if not (sub0 or k0 == ("rows", "V")) or not (sub1 or k1 == ("rows", "V")):
+            rep.unmodelled("GH-LCC", fi, fi.node, f"the returned table ranges over {k0} × {k1}: not a selection of the vertices"[:200])
+            return "unmodelled"
+        if sub0 != sub1:
+            rep.refuted("GH-LCC", fi, fi.node, "for a disconnected graph the distance matrix is restricted along " +
+                        ("its rows only" if sub0 else "its columns only") + ": the result is not square / not a metric on one "
+                        "vertex set", construct=f"{fi.qualname}: restriction to a component")
+            return "refuted"
+
+        def canon(c):
+            for v_ in sorted(sym.free_ivars(c)):
+                c = sym.subst_ivar(c, v_, ("$v", 0))
+            return c
+        c0, c1 = canon(k0[2]), canon(k1[2])
+        if c0 != c1:
+            rep.refuted("GH-LCC", fi, fi.node,
+                        f"rows are kept under {sym.show(c0)[:80]} and columns under {sym.show(c1)[:80]}: the restricted matrix pairs "
+                        f"vertices of two different sets", construct=f"{fi.qualname}: restriction to a component")
+            return "refuted"
+        if "label" not in sym.inputs_of(c0):
+            rep.unmodelled("GH-LCC", fi, fi.node, f"the vertices kept ({sym.show(c0)[:80]}) are not chosen by component label")
+            return "unmodelled"
+        picks = [x for x in sym.walk(c0) if x[0] == "red" and x[1] in ("argmax", "argmin")
+                 and any(y[0] == "opq" and y[1].startswith("count-of") for y in sym.walk(x[4]))]
+        if picks and all(x[1] == "argmax" for x in picks):
+            largest_ok = True
+        elif picks:
+            rep.refuted("GH-LCC", fi, fi.node, "the component kept for a disconnected graph is the one with the FEWEST vertices "
+                                               "(argmin of the component sizes), not the largest", construct=f"{fi.qualname}: component kept")
+            return "refuted"
+        else:
+            largest_ok = None
+        if a.elem != sym.In("dg", ((i0, 0), (i1, 0))):
+            rep.refuted("GH-LCC", fi, fi.node, f"entry (i, j) of the restricted matrix is {sym.show(a.elem)[:80]}, not the distance "
+                                               f"between the kept vertices i and j", construct=f"{fi.qualname}: restriction to a component")
+            return "refuted"
+        restricted += 1
+    if not restricted:
+        rep.refuted("GH-LCC", fi, fi.node, "a graph with infinite shortest-path distances is not restricted to a connected "
+                                           "component: the bounds are computed on a table that is not a metric",
+                    construct=f"{fi.qualname}: disconnected branch")
+        return "refuted"
+    warned = [ev for ev in I.log if ev["kind"] == "ext-call" and ev.get("target") == "warnings.warn"]
+    rep.discharged("GH-LCC", fi, fi.node, "evaluated: when some distance is infinite the table is restricted to one selection of "
+                                          "vertices, chosen by component label, on rows and columns alike; entries stay the "
+                                          "distances of the kept vertices")
+    if largest_ok:
+        rep.discharged("GH-LCC", fi, fi.node, "the label kept is the one at the argmax of the component sizes", nontrivial=False)
+    else:
+        rep.unmodelled("GH-LCC", fi, fi.node, "which component is kept (the largest?) was not recognised in the selection "
+                                              f"{sym.show(c0)[:80]}")
+        return "unmodelled-largest"
+    if warned:
+        rep.discharged("GH-LCC", fi, warned[0]["node"], "a warning is issued on the way", nontrivial=False)
+        return "ok"
+    return "ok-nowarn"
+
+
 def check_lcc(project: Project, rep, fi):
+    from ..core.report import Report as _Report
+    pre = _Report("C17-lcc")
+    st = check_lcc_semantic(project, pre, fi)
+    if st in ("refuted", "ok", "ok-nowarn", "unmodelled-largest"):
+        st2 = check_lcc_semantic(project, rep, fi)
+        if st2 == "ok-nowarn":
+            # the restriction is right; whether a warning accompanies it is left to the reader of the branch below
+            if "warn" in _reachable_text(project, fi):
+                rep.unmodelled("GH-LCC", fi, fi.node, "no call of warnings.warn was observed on the disconnected path, although a "
+                                                      "warning function is reachable (a callback?)")
+            else:
+                rep.refuted("GH-LCC", fi, fi.node, "the disconnected graph is replaced by a component without a warning")
+        return
     from .common import fn_view
     f = fn_view(project, fi)
     branch = None
